@@ -18,7 +18,8 @@ REQUIRED = ['getNBest_scale', 'plurality_scale', 'highestAverages_scale', 'sumVa
             'spav_scale', 'pav_scale', 'pav_fresh_scale',
             'scoreVoting_scale', 'scoreAggregate_scale', 'majorityJudgmentPlus_scale', 'star_scale',
             'bucklin_scale', 'bucklinWhole_scale', 'preferenceAddition_scale', 'bucklinSeats_scale', 'oklahoma_scale',
-            'baldwin_scale', 'hare_homogeneousSTV', 'imperiali_homogeneousSTV', 'hagenbach_bischoff_homogeneousSTV', 'stvSelector_scale', 'stvDistributor_scale']
+            'baldwin_scale', 'hare_homogeneousSTV', 'imperiali_homogeneousSTV', 'hagenbach_bischoff_homogeneousSTV', 'stvSelector_scale', 'stvDistributor_scale',
+            'pureProportionality_scale', 'majorityJudgmentDefault_scale_partial', 'majorityJudgmentDefault_scale_witness']
 # families whose scale invariance is proved in Lean (Props/C11.lean); the rest is covered by the oracle only
 PROVED_FAMILIES = ['plurality', 'ha_d_hondt', 'ha_sainte_lague', 'ha_imperiali', 'ha_danish', 'ha_macau', 'quota_selector_hare',
                    'rel_threshold_5pc', 'rel_threshold_third', 'rel_threshold_5pc_decimal', 'rel_threshold_5pc_float',
@@ -31,10 +32,17 @@ PROVED_FAMILIES = ['plurality', 'ha_d_hondt', 'ha_sainte_lague', 'ha_imperiali',
                    'condorcet_winner', 'smith_set', 'schwartz_set', 'benham', 'tideman_alternative',
                    'approval_pav', 'approval_spav',
                    'score_mean', 'score_sum0', 'score_median', 'majority_judgment_plus', 'star', 'bucklin',
-                   'oklahoma', 'baldwin', 'stv_gregory_hare', 'stv_gregory_hare_strict', 'stv_gregory_imperiali']
+                   'oklahoma', 'baldwin', 'stv_gregory_hare', 'stv_gregory_hare_strict', 'stv_gregory_imperiali',
+                   'pure_proportionality', 'pure_proportionality_constrained']
 PROVED_FAMILIES += [f + '_sparse' for f in PROVED_FAMILIES if f.startswith('condorcet_') or f in ('smith_set', 'schwartz_set')]
 # proved for a part of the family's parameter space only: the rest stays listed as unproved
 PARTLY_PROVED = {}
+# families of the quantifier for which the statement is FALSE of the current code
+FALSE_AS_STATED = {'majority_judgment': 'FALSE as stated on the current code (majorityJudgmentDefault_scale_witness: the default tie-break '
+                   'removes an absolute number of median grades per step - {(b:5):1, (a:3,b:2,c:2):1}, two seats: StatisticsError, with '
+                   'all counts tripled [a, b]; open finding C11-mj-default-tiebreak-scale); proved instead: '
+                   'majorityJudgmentDefault_scale_partial (invariant whenever the medians decide every place, i.e. the tie-break is not '
+                   'entered) and majorityJudgmentPlus_scale (tie_breaking=\'plus\' is invariant)'}
 MULTIPLIERS = [2, 3, 7, 10 ** 6, 10 ** 25 + 7]
 SMALL_MULTIPLIERS = [2, 3, 7]
 BIG_MULTIPLIERS = [10 ** 25 + 7, 2 ** 70 + 1, 3 * 10 ** 30 + 11, 10 ** 25 + 7]     # directed boundary cases
@@ -94,6 +102,24 @@ def enc_stv(prof):
             for b, w in votes.items()]
 
 
+def pure_constraints(prof, n):
+    """the floors / caps families._PureConstrained derives from the vote VALUES (a cap on the unique largest party one seat below
+    its exact share, previous seats for the unique smallest party equal to its share rounded up), on protocol ids"""
+    import math
+    vals = {c: Fraction(w) for c, w in prof}
+    total = sum(vals.values())
+    prev, caps = [], []
+    if total > 0 and len(vals) >= 3:
+        sv = sorted(vals.values())
+        if sv[-1] != sv[-2]:
+            top = [c for c, v in vals.items() if v == sv[-1]][0]
+            caps.append([top, max(math.floor(sv[-1] * n / total) - 1, 0)])
+        if sv[0] != sv[1]:
+            low = [c for c, v in vals.items() if v == sv[0]][0]
+            prev.append([low, math.ceil(sv[0] * n / total)])
+    return prev, caps
+
+
 def enc_approval(prof):
     return [[{'set': b}, w] for b, w in prof]
 
@@ -129,7 +155,9 @@ UNPROVED = []   # filled at import: scale-free families without a Lean theorem y
 def _init_unproved():
     try:
         for f in fams().values():
-            if f.scale_free and f.name not in PROVED_FAMILIES:
+            if f.scale_free and f.name in FALSE_AS_STATED:
+                UNPROVED.append(f'scale_invariant_{f.name}: {FALSE_AS_STATED[f.name]}')
+            elif f.scale_free and f.name not in PROVED_FAMILIES:
                 UNPROVED.append('scale_invariant_' + f.name)
             elif f.name in PARTLY_PROVED:
                 UNPROVED.append(f'scale_invariant_{f.name} for {PARTLY_PROVED[f.name]}')
@@ -471,8 +499,21 @@ def model_line(case):
             return {'op': 'plurality', 'n': case['n'], 'votes': prof}
         if f.startswith('ha_') and f in PROVED_FAMILIES:
             return {'op': 'ha', 'divisor': f[3:], 'first_coef': None, 'votes': prof, 'n': case['n'], 'prev': [], 'max': []}
+        if f == 'pure_proportionality':
+            return {'op': 'pure_proportionality', 'votes': prof, 'n': case['n'], 'prev': [], 'max': []}
+        if f == 'pure_proportionality_constrained':
+            prev, caps = pure_constraints(prof, case['n'])
+            return {'op': 'pure_proportionality', 'votes': prof, 'n': case['n'], 'prev': prev, 'max': caps}
         if f == 'quota_selector_hare':
             return {'op': 'quota_selector', 'n': case['n'], 'votes': prof, 'quota': 'hare', 'accept_equal': True, 'on_more': 'select'}
+        if f == 'majority_judgment':
+            # not a proved family (the statement is FALSE of the code): the C12 model of the default tie-break still evaluates the
+            # scaled profile, which ties `majorityJudgmentDefault_scale_witness` to the implementation
+            votes = enc_score(prof)
+            if votes is None:
+                return None
+            return {'op': 'mj', 'function': 'median_low', 'unscored': None, 'tie_breaking': 'default', 'votes': votes, 'n': case['n'],
+                    'min_count': 0, 'truncation': '0', 'bottom': '0'}
         if f not in PROVED_FAMILIES:
             return None
         if f in REL_THRESHOLDS:
@@ -544,13 +585,20 @@ def compare(case, iobs, mobs):
             return [sorted(x for x in o if not isinstance(x, dict)), [x for x in o if isinstance(x, dict)]]
         a, b = unordered(got), unordered(mobs)
         return None if a == b else f'impl={json.dumps(a)} model={json.dumps(b)} (order-insensitive: shared ranks)'
+    if case['op'] == 'scale' and case['family'].startswith('pure_proportionality'):
+        # exact shares: the code reports ints where the share is integral, Fractions otherwise - compare the numbers
+        if isinstance(got, dict) or isinstance(mobs, dict):
+            return None if got == mobs else f'impl={json.dumps(got)} model={json.dumps(mobs)}'
+        a = sorted([c, str(Fraction(v))] for c, v in got)
+        b = sorted([c, str(Fraction(v))] for c, v in mobs)
+        return None if a == b else f'impl={json.dumps(a)} model={json.dumps(b)}'
     if isinstance(mobs, dict) and 'res' in mobs and 'grp' in mobs:      # second-order Copeland: the C05 canonicalisation
         from props import C05
         return C05.compare({'op': 'eval', 'name': 'copeland_2o'}, got, mobs)
     if case['op'] == 'scale' and case['family'] in ('approval_pav', 'score_mean', 'score_sum0', 'score_median', 'star'):
         from props import C12          # the C12 canonicalisation (order among equal sort keys)
         return C12._cmp_keyed(got, mobs)
-    if case['op'] == 'scale' and case['family'] == 'majority_judgment_plus':
+    if case['op'] == 'scale' and case['family'] in ('majority_judgment_plus', 'majority_judgment'):
         from props import C12          # the evaluator documents that it does not order the elected candidates
         return C12.compare({'op': 'mj'}, got, mobs)
     if isinstance(mobs, dict) and 'sel' in mobs and 'keys' in mobs:
@@ -625,7 +673,7 @@ LEVEL_TEXT = ('Scale invariance is a Lean theorem, for ALL inputs of the model a
               'Condorcet winner / Smith / Schwartz sets, Benham, Tideman alternative (any number of seats), PAV (from any state of its coefficient cache), '
               'SPAV, PreferenceAddition with any coefficient function and any number of seats (Bucklin, Oklahoma), Baldwin, STV with Gregory transfers and a homogeneous quota (selector and distributor; stvSelector_scale covers Hare with accept_quota_equal True or False - stv_gregory_hare, stv_gregory_hare_strict - and Imperiali - stv_gregory_imperiali); for positive natural '
               'factors: ScoreVoting sum/mean/lower median, MajorityJudgment with the plus tie-break, STAR. Near-tie separation and equal-rational '
-              'ties are theorems over all rationals. Nothing scale-free is left to the oracle alone; '
+              'ties are theorems over all rationals. PureProportionality for every seat number, floors and caps. Nothing scale-free is left to the oracle alone; '
               'MajorityJudgment with the default tie-break is scale DEPENDENT (open finding). Returned numeric types are monitored (no float).')
 LEVEL_NOTE = ('Trusted: Lean kernel + standard axioms; the models of C01/C02/C03/C05/C06/C08(sequential)/C09/C12/C13/C16/C17 tied to the code by correspondence '
               '(re-run here on the scaled profiles); CPython int/Fraction exactness. Partial: the families listed as unproved are decided by the '
